@@ -185,16 +185,15 @@ theorem evalE_indep {V : Type} (S : ESem V) (n : Node) (hc : clean false n = tru
 
 mutual
 /-- the statements C01 is about: random() and randomblob() occur only outside ORDER BY, and
-randomblob() only with a literal byte count (the property text excludes RANDOM() inside
-ORDER BY; a computed byte count is left alone by the rewriter by design) -/
+randomblob() only with an argument for which the rewriter's model pins a length
+(`Rewrite.blobLenOfArgs`, the model's top-level function: a number literal, possibly under a
+unary sign; the property text excludes RANDOM() inside ORDER BY; a computed byte count is left
+alone by the rewriter by design) -/
 def covered : Node → Bool
   | .call name args extra =>
     match classify name with
     | .random => true
-    | .randomblob =>
-      (match args with
-       | .cons (.lit "number" v) .nil => (parseIntLit v).isSome
-       | _ => false)
+    | .randomblob => (blobLenOfArgs args).isSome
     | _ => coveredL args && coveredL extra
   | .lit _ _ => true
   | .ident _ => true
@@ -317,30 +316,13 @@ theorem walk_covered (c : Cfg) (hr : c.rwRand = true) :
       rw [walk, this]; simp [noRand]
     | randomblob =>
       rw [hc] at h
-      cases args with
-      | nil => simp at h
-      | cons a rest =>
-        cases a with
-        | lit k v =>
-          cases rest with
-          | nil =>
-            by_cases hk : k = "number"
-            · subst hk
-              simp only at h
-              cases hp : parseIntLit v with
-              | none => rw [hp] at h; exact absurd h (by decide)
-              | some m =>
-                have : visitCall c st name (.cons (.lit "number" v) .nil) =
-                    .replace (.lit "randblob" (toString (max m 1))) { st with modified := true } := by
-                  simp [visitCall, hc, ho, hr, hp]
-                rw [walk, this]; simp [noRand]
-            · simp [hk] at h
-          | cons _ _ => simp at h
-        | call _ _ _ => simp at h
-        | ident _ => simp at h
-        | ord _ => simp at h
-        | ret _ => simp at h
-        | other _ _ => simp at h
+      cases hp : blobLenOfArgs args with
+      | none => rw [hp] at h; simp at h
+      | some m =>
+        have : visitCall c st name args =
+            .replace (.lit "randblob" (toString m)) { st with modified := true } := by
+          simp [visitCall, hc, ho, hr, hp]
+        rw [walk, this]; simp [noRand]
     | five =>
       rw [hc] at h; simp only [Bool.and_eq_true] at h
       have hn : isRandName name = false := by simp [isRandName, hc]
